@@ -289,7 +289,7 @@ fn c07_build(script: &c07::Script) -> Option<DriverParty> {
         driver: Driver::new(RC::new(program), loc, state, cfg.arch.architecture()),
         prog,
         loc: rloc,
-        st: RState { scalars, mem: shadow },
+        st: RState { scalars, mem: shadow, intrinsics_are_nops: false },
     })
 }
 
